@@ -143,6 +143,156 @@ def naming_cases():
     return out
 
 
+# ------------------------------------------------------------------- connector components, no connect clause
+def _pin(name="Pin", variant="plain"):
+    comps = [Comp("v", "Real"), Comp("i", "Real", ["flow"])]
+    if variant == "param":
+        comps += [Comp("k", "Real", ["parameter"], value=N(3)), Comp("n", "Integer", ["constant"], value=N(2))]
+    elif variant == "two-flows":
+        comps += [Comp("T", "Real"), Comp("q", "Real", ["flow"])]
+    elif variant == "io":
+        comps += [Comp("ci", "Real", ["input"]), Comp("co", "Real", ["output"])]
+    elif variant == "flow-array":
+        comps += [Comp("fv", "Real", ["flow"], dims=[2]), Comp("pv", "Real", dims=[2])]
+    return Cls(name, "connector", comps=comps)
+
+
+def connector_cases(tier):
+    """Hierarchies that contain connector components (any depth, 1-2 instances, inherited, nested/qualified connector
+    class, connector inside a connector, derived connector) and NOT A SINGLE connect clause: the connector instances
+    themselves are not flat variables, their elementary members are, and every unconnected flow variable is 0."""
+    out = []
+    pin_variants = ("plain", "param", "two-flows", "io", "flow-array")
+    for pv, depth, inst in itertools.product(pin_variants, (0, 1, 2), (1, 2)):
+        if tier == "quick" and pv in ("param", "io", "flow-array") and (depth, inst) not in ((0, 2), (1, 1), (2, 1)):
+            continue
+        # TwoPin-like element at `depth` levels below the top; at depth 0 the connectors sit in the top class
+        names = ["p", "n"][:inst]
+        comps = [Comp(nm, "Pin") for nm in names] + [Comp("u", "Real"), Comp("R", "Real", ["parameter"], value=N(10))]
+        rhs = V("p.v") if inst == 1 else ("-", V("p.v"), V("n.v"))
+        eqs = [(V("u"), rhs), (("*", V("R"), V("p.i")), V("u"))]
+        below, ref = Cls("El", comps=comps, eqs=eqs), "u"
+        classes = [_pin("Pin", pv), below]
+        for k in range(depth):
+            cs = [Comp("r1", below.name), Comp("r2", below.name), Comp(f"s{k}", "Real"), Comp("kk", "Integer", ["discrete"])]
+            # references to a sub-component's variable and to a variable of a connector two levels down
+            pinpath = "r2." + ("p.v" if k == 0 else "r1." * (k - 1) + "r1.p.v")
+            cur = Cls(f"B{k}", comps=cs, eqs=[(V(f"s{k}"), ("+", V("r1." + ref), V(pinpath)))])
+            classes.append(cur)
+            below, ref = cur, f"s{k}"
+        if depth:
+            top = Cls("Top", comps=[Comp("b", below.name), Comp("ext", "Pin"), Comp("w", "Real")], eqs=[(V("w"), ("+", V("b." + ref), V("ext.v")))])
+            classes.append(top)
+            out.append((f"pin={pv},depth={depth},inst={inst}", Lib(classes), "Top"))
+        else:
+            out.append((f"pin={pv},depth=0,inst={inst}", Lib(classes), "El"))
+    # the connector component is inherited / the connector class is derived / nested / qualified / contains a connector
+    base = Cls("Base", comps=[Comp("p", "Pin"), Comp("g", "Real")], eqs=[(V("g"), V("p.v"))])
+    der = Cls("Der", extends=["Base"], comps=[Comp("n", "Pin"), Comp("h", "Real")], eqs=[(V("h"), ("-", V("p.v"), V("n.v")))])
+    out.append(("inherited", Lib([_pin(), base, der]), "Der"))
+    out.append(("inherited-instances", Lib([_pin(), Cls("Base", comps=[Comp("p", "Pin"), Comp("g", "Real")], eqs=[(V("g"), V("p.v"))]),
+                                            Cls("Der", extends=["Base"], comps=[Comp("h", "Real")], eqs=[(V("h"), V("p.i"))]),
+                                            Cls("Use", comps=[Comp("d1", "Der"), Comp("d2", "Der"), Comp("r", "Real")], eqs=[(V("r"), ("+", V("d1.h"), V("d2.p.v")))])]), "Use"))
+    hp = Cls("HeatPin", "connector", extends=["Pin"], comps=[Comp("T", "Real"), Comp("q", "Real", ["flow"])])
+    out.append(("derived-connector", Lib([_pin(), hp, Cls("M", comps=[Comp("a", "HeatPin"), Comp("b", "Pin"), Comp("z", "Real")], eqs=[(V("z"), ("+", V("a.T"), ("*", V("a.v"), V("b.v"))))]),
+                                          Cls("Top", comps=[Comp("m1", "M"), Comp("m2", "M"), Comp("c", "HeatPin")], eqs=[(V("c.T"), V("m1.z"))])]), "Top"))
+    out.append(("derived-connector-direct", Lib([_pin(), Cls("HeatPin", "connector", extends=["Pin"], comps=[Comp("T", "Real"), Comp("q", "Real", ["flow"])]),
+                                                 Cls("M", comps=[Comp("a", "HeatPin"), Comp("z", "Real")], eqs=[(V("z"), V("a.T"))])]), "M"))
+    m = Cls("M", comps=[Comp("a", "Pin"), Comp("b", "Pin"), Comp("z", "Real")], eqs=[(V("z"), ("-", V("a.v"), V("b.v")))], nested=[_pin()])
+    out.append(("local-connector-class", Lib([m, Cls("Top", comps=[Comp("m", "M"), Comp("y", "Real")], eqs=[(V("y"), V("m.a.v"))])]), "Top"))
+    out.append(("local-connector-class-direct", Lib([Cls("M", comps=[Comp("a", "Pin"), Comp("z", "Real")], eqs=[(V("z"), V("a.v"))], nested=[_pin()])]), "M"))
+    out.append(("qualified-connector-class", Lib([Cls("Itf", "package", nested=[_pin(), _pin("Port", "two-flows")]),
+                                                  Cls("M", comps=[Comp("a", "Itf.Pin"), Comp("b", "Itf.Port"), Comp("z", "Real")], eqs=[(V("z"), ("+", V("a.v"), V("b.T")))])]), "M"))
+    bus = Cls("Bus", "connector", comps=[Comp("a", "Pin"), Comp("b", "Pin"), Comp("s", "Real")])
+    out.append(("connector-in-connector", Lib([_pin(), bus, Cls("M", comps=[Comp("bus", "Bus"), Comp("z", "Real")], eqs=[(V("z"), ("+", V("bus.a.v"), V("bus.s")))]),
+                                               Cls("Top", comps=[Comp("m", "M"), Comp("x", "Bus")], eqs=[(V("x.s"), V("m.bus.b.v"))])]), "Top"))
+    # connector members only (no other variable), and a model whose ONLY components are connectors
+    out.append(("only-connectors", Lib([_pin(), Cls("M", comps=[Comp("a", "Pin"), Comp("b", "Pin")], eqs=[(V("a.v"), V("b.v"))]),
+                                        Cls("Top", comps=[Comp("m", "M")])]), "Top"))
+    # connector and model component with the same member names next to each other
+    lk = Cls("Like", comps=[Comp("v", "Real"), Comp("i", "Real")], eqs=[(V("v"), ("*", V("i"), N(2)))])
+    out.append(("connector-and-lookalike-model", Lib([_pin(), lk, Cls("M", comps=[Comp("a", "Pin"), Comp("l", "Like"), Comp("a2", "Pin")], eqs=[(V("l.i"), ("+", V("a.v"), V("a2.v")))])]), "M"))
+    return out
+
+
+# ------------------------------------------------------- sibling components with qualified type names
+def _gain(name="Gain"):
+    return Cls(name, comps=[Comp("k", "Real", ["parameter"], value=N(2)), Comp("u", "Real"), Comp("y", "Real")], eqs=[(V("y"), ("*", V("k"), V("u")))])
+
+
+def _counter(name="Counter"):
+    return Cls(name, comps=[Comp("n", "Integer", ["discrete"]), Comp("on", "Boolean"), Comp("level", "Real", dims=[3])], eqs=[(V("level[1]"), V("n"))])
+
+
+def _user(types, reps, extra_nested=(), name="Top", inherited=0):
+    """A class with one component per entry of `types` (c0, c1, ...) and an equation over one variable of each.
+    The first `inherited` components are declared in a base class."""
+    comps = [Comp(f"c{i}", t) for i, t in enumerate(types)]
+    rhs = None
+    for i, t in enumerate(types):
+        term = ("*", V(f"c{i}.{reps[t]}"), N(i + 2))
+        rhs = term if rhs is None else ("+", rhs, term)
+    classes = []
+    ext = []
+    if inherited:
+        classes.append(Cls(name + "Base", comps=comps[:inherited] + [Comp("bw", "Real")], eqs=[(V("bw"), V(f"c0.{reps[types[0]]}"))]))
+        ext = [name + "Base"]
+    classes.append(Cls(name, extends=ext, comps=comps[inherited:] + [Comp("w", "Real")], eqs=[(V("w"), rhs)], nested=list(extra_nested)))
+    return classes
+
+
+def qualified_cases(tier):
+    """Within ONE class, several components whose type names are qualified and share their first (or last)
+    identifier but denote different classes - every order, with repeats, inherited, wrapped in two instances."""
+    out = []
+
+    def outer():
+        return Cls("Outer", comps=[Comp("g", "Gain"), Comp("o", "Real")], eqs=[(V("o"), V("g.y"))], nested=[_gain(), _counter()])
+
+    reps = {"Outer.Gain": "y", "Outer.Counter": "level[2]", "Outer": "o"}
+    orders = list(itertools.permutations(list(reps))) + [("Outer.Gain", "Outer.Gain", "Outer.Counter"), ("Outer.Counter", "Outer.Gain", "Outer.Counter"),
+                                                          ("Outer", "Outer.Counter", "Outer"), ("Outer.Gain", "Outer.Counter"), ("Outer.Counter", "Outer.Gain")]
+    for k, order in enumerate(orders):
+        tag = ">".join(order)
+        out.append((f"nested-in-model[{tag}]", Lib([outer()] + _user(order, reps)), "Top"))
+        if k % 2 == 0 or tier != "quick":
+            out.append((f"nested-in-model-2inst[{tag}]", Lib([outer()] + _user(order, reps) + [Cls("Top2", comps=[Comp("t1", "Top"), Comp("t2", "Top")])]), "Top2"))
+        if k % 2 == 1 or tier != "quick":
+            out.append((f"nested-in-model-inherited[{tag}]", Lib([outer()] + _user(order, reps, inherited=1)), "Top"))
+    # a package with a sub-package: names share the first, the first two, or only the last identifier
+    def pk():
+        sub = Cls("Sub", "package", nested=[Cls("Gain", comps=[Comp("s", "Real"), Comp("k", "Real", ["parameter"], value=N(7))], eqs=[(V("s"), ("+", V("k"), N(1)))]),
+                                            Cls("Leaf", comps=[Comp("x", "Real"), Comp("f", "Boolean")], eqs=[(V("x"), N(4))])])
+        return Cls("Pk", "package", nested=[_gain(), _counter(), sub])
+
+    reps = {"Pk.Gain": "y", "Pk.Counter": "level[3]", "Pk.Sub.Gain": "s", "Pk.Sub.Leaf": "x"}
+    names = list(reps)
+    orders = [tuple(names[i:] + names[:i]) for i in range(4)] + [tuple(reversed(names)), ("Pk.Sub.Leaf", "Pk.Sub.Gain"), ("Pk.Sub.Gain", "Pk.Gain"), ("Pk.Gain", "Pk.Sub.Gain", "Pk.Gain")]
+    if tier != "quick":
+        orders = sorted(set(orders) | set(itertools.permutations(names)))
+    for k, order in enumerate(orders):
+        tag = ">".join(order)
+        out.append((f"package[{tag}]", Lib([pk()] + _user(order, reps)), "Top"))
+        if k % 2 == 0 or tier != "quick":
+            # the using class lives in another package, two instances of it on top
+            site = Cls("Site", "package", nested=_user(order, reps, inherited=1 if k % 3 == 0 else 0) + [Cls("Top2", comps=[Comp("t1", "Top"), Comp("t2", "Top")])])
+            out.append((f"package-from-other-package[{tag}]", Lib([pk(), site]), "Site.Top2"))
+    # equal LAST identifier, different first; plus an unqualified class of that name
+    def leafs():
+        return [Cls("P1", "package", nested=[Cls("Leaf", comps=[Comp("x", "Real")], eqs=[(V("x"), N(1))])]),
+                Cls("P2", "package", nested=[Cls("Leaf", comps=[Comp("z", "Real"), Comp("x", "Integer", ["parameter"], value=N(3))], eqs=[(V("z"), V("x"))])]),
+                Cls("Leaf", comps=[Comp("h", "Real", ["discrete"])])]
+
+    reps = {"P1.Leaf": "x", "P2.Leaf": "z", "Leaf": "h"}
+    for order in itertools.permutations(list(reps)):
+        out.append((f"same-last-id[{'>'.join(order)}]", Lib(leafs() + _user(order, reps)), "Top"))
+    # qualified reference to a class's own nested classes from inside it, next to the unqualified spelling
+    o = Cls("Outer", comps=[Comp("g", "Gain"), Comp("g2", "Outer.Gain"), Comp("c", "Outer.Counter"), Comp("o", "Real")],
+            eqs=[(V("o"), ("+", V("g.y"), ("*", V("g2.u"), V("c.level[2]"))))], nested=[_gain(), _counter()])
+    out.append(("own-nested-qualified", Lib([o, Cls("Top", comps=[Comp("a", "Outer"), Comp("b", "Outer.Counter")], eqs=[(V("b.n"), V("a.c.n"))])]), "Top"))
+    return out
+
+
 def family(tier):
     items = []
     depths = (1, 2, 3) if tier == "quick" else (1, 2, 3, 4)
@@ -157,6 +307,10 @@ def family(tier):
         items.append((f"extends[{cid}]", lib, top))
     for cid, lib, top in naming_cases():
         items.append((f"naming[{cid}]", lib, top))
+    for cid, lib, top in connector_cases(tier):
+        items.append((f"connector[{cid}]", lib, top))
+    for cid, lib, top in qualified_cases(tier):
+        items.append((f"qualified[{cid}]", lib, top))
     # every class of every library is also flattened on its own (intermediate levels as roots)
     extra = []
     for cid, lib, top in items:
@@ -173,6 +327,11 @@ def expected(lib, top):
     for n, v in vars_.items():
         if "value" in v["attrs"] and not ({"parameter", "constant"} & set(v["prefixes"])):
             eqs.append((("v", n), v["attrs"].pop("value")))
+    # no program of the family has a connect clause: every flow variable is unconnected, hence 0 (spec 9.2)
+    for n, v in vars_.items():
+        if "flow" in v["prefixes"]:
+            for idx in itertools.product(*[range(1, d + 1) for d in v["dims"]]):
+                eqs.append((("v", n + ("[" + ",".join(map(str, idx)) + "]" if idx else "")), ("n", 0)))
     return vars_, eqs
 
 
@@ -232,11 +391,19 @@ def main():
                      "arrays of scalars, der} x leaf global or nested in the top class; 10 extends shapes (single, chain, multiple in both orders, inherited component, instances of a derived "
                      "class, package sibling, nested class extending a global class, base whose component type is visible only from the base's scope, cross-package); 6 naming shapes "
                      "(sub-component named like its container, names that are prefixes of each other, nested package shadowing a top-level package, local class used twice, alias-typed "
-                     "input/output at depth 2-3); intermediate classes also flattened on their own; all variable values unbounded reals")
+                     "input/output at depth 2-3); connector components WITHOUT any connect clause: connector variant {plain, with parameter/constant, two flow variables, input/output members, "
+                     "flow and potential arrays} x 0-2 levels below the top x 1-2 connector instances per element, plus inherited connector components, instances of a class inheriting one, a "
+                     "connector extending a connector, a connector class local to the model / referenced by qualified name, a connector containing connectors, models consisting of connectors only, "
+                     "a connector next to a model with the same member names - expected: leaf members only, every (element of a) flow variable = 0; sibling components with QUALIFIED type names: "
+                     "classes nested in a model used as Outer.Gain / Outer.Counter / Outer in all 6 orders, with repeated types and pairs, wrapped in two instances and with the first component "
+                     "inherited; package Pk with sub-package (Pk.Gain, Pk.Counter, Pk.Sub.Gain, Pk.Sub.Leaf: rotations, reversal, pairs, repeats; thorough: all 24 orders), used from another package "
+                     "in two instances; P1.Leaf / P2.Leaf / Leaf in all 6 orders; a class referring to its own nested classes by qualified and unqualified name; "
+                     "intermediate classes also flattened on their own; all variable values unbounded reals")
     cov["explanation"] = "per flat scalar equation: z3 unsat of (impl residual != +-expected residual) for exactly one expected instance equation"
     rep.assumptions += ["the expected flat model comes from vk/ref/flatten_ref.py (lookup and inheritance rules of the Modelica specification), independent of pymoca.tree",
                         "text -> AST is executed concretely; program structure is a bounded enumerated family",
-                        "the 'state' marker that flatten adds to differentiated variables is not a declared prefix and is ignored"]
+                        "the 'state' marker that flatten adds to differentiated variables is not a declared prefix and is ignored",
+                        "no program of the family contains a connect clause (connection sets are C09); an unconnected flow variable is expected to get the equation flow = 0 (Modelica 9.2)"]
     if not cov.get("programs"):
         rep.harness_error("no program was compared")
     return rep.finish()
